@@ -19,12 +19,12 @@ theorem uc_deep_sleep (u : Uc) (ha : u.asleep = false) : (u.feed (.c 0x07 [0xA5]
   have h2 : ¬ ((0x07 : UInt8) = 0x13) := by decide
   have h3 : ¬ ((0x07 : UInt8) = 0x14) := by decide
   have h4 : ¬ ((0x07 : UInt8) = 0x15) := by decide
-  simp [Uc.feed, ha]
+  simp [Uc.feed, Uc.regStep, ha]
 
 theorem uc_asleep_ignores (u : Uc) (ha : u.asleep = true) (c : UInt8) (ps : List UInt8) :
     (u.feed (.c c ps)).p1 = u.p1 ∧ (u.feed (.c c ps)).p2 = u.p2 ∧ (u.feed (.c c ps)).asleep = true ∧
     (u.feed (.c c ps)).ignored = u.ignored + 1 := by
-  simp [Uc.feed, ha]
+  simp [Uc.feed, Uc.regStep, ha]
 
 theorem uc_reset_wakes (u : Uc) : (u.feed .rst).asleep = false ∧ (u.feed .rst).initialised = false := ⟨rfl, rfl⟩
 
